@@ -169,7 +169,12 @@ def run(ctx):
                     p.replace('.orig', '.origin').replace('.debian', '.deb1an') if '.tar.' in p else p + '.txt',
                     p.replace('_', '_!', 1), 'a_b_c_d.deb', p.upper() if not p.isupper() else p + '~']
     rejects += ['.deb', '_copyright', 'a.deb', 'a_.deb', '_1.deb', 'a_1_.tar.gz', 'a_1.tar.gz', 'a_1.orig.tar.zst', 'a_b_c_copyright_x',
-                '', 'a_1.diff.gz', 'a_1_all.deb.', 'a_1:2:3_all.deb', 'a_١_all.deb']
+                '', 'a_1.diff.gz', 'a_1_all.deb.', 'a_1:2:3_all.deb', 'a_١_all.deb',
+                # more than three underscore-separated parts
+                'zlib1g_1.2.11-1_amd64_signed.deb', 'zlib_1.2.11_2_3.dsc', 'a_1_b_c.deb', 'a_1_2_3_4.udeb', 'a_1_all_x_copyright', 'd/a_1_b_c.orig.tar.gz']
+    for _ in range(ctx.n(200, 2000)):
+        n, v = rng.choice(NAMES), rng.choice(vers)
+        rejects.append('%s_%s_%s_%s%s' % (n, v, rng.choice(ARCHS), rng.choice(['signed', 'x', '1', 'all']), rng.choice(BIN_EXT)))
     rejects = [r for r in rejects if not _accepts(r)] if False else rejects
     should_reject = [r for r in rejects if not _policy_ok(r)]
     fails += ctx.prop('prop:reject', should_reject, p_reject)
